@@ -1,5 +1,5 @@
 //! Stand-in for `rustfmt` on the simulated PATH. Mode from VERIF_RUSTFMT_MODE:
-//! pass (stdin -> stdout, broken into lines: see pretty.rs), fail (exit 1), nonutf8 (bytes that are not UTF-8, exit 0),
+//! pass (stdin -> stdout, broken into lines: see pretty.rs), crlf (the same with CRLF line endings), fail (exit 1), nonutf8 (bytes that are not UTF-8, exit 0),
 //! killed (consumes stdin, prints nothing, dies from SIGKILL), killedpartial (prints the first half
 //! of its input, then dies from SIGKILL) — a formatter taken down by the OOM killer or a CI timeout.
 use std::io::{Read, Write};
@@ -33,6 +33,11 @@ fn main() {
             unsafe {
                 raise(9);
             }
+        }
+        "crlf" => {
+            // a formatter configured with `newline_style = "Windows"` (or running on Windows)
+            let text = String::from_utf8_lossy(&input);
+            let _ = std::io::stdout().write_all(pretty::pretty(&text).replace('\n', "\r\n").as_bytes());
         }
         _ => {
             let text = String::from_utf8_lossy(&input);
